@@ -1,4 +1,4 @@
-"""C04 -- inline: per-call-site independence and the closed assignment-operator table (R04.1-R04.8)."""
+"""C04 -- inline: per-call-site independence and the closed assignment-operator table (R04.1-R04.9)."""
 from __future__ import annotations
 
 import ast
